@@ -23,8 +23,10 @@ func init() { register("C16", "model_checking", checkC16) }
 type cliInv struct {
 	Sub, Format, File, Target, Doc, Stdout            string
 	Massive, DryRun, Strict, Stray, Unknown, MTimeout bool
-	Watch                                             bool
+	Watch, Desc                                       bool
 	Exts                                              []string
+	Sp, Usage                                         string
+	Argv                                              []string // the words as Cli.tla spells them (Argv(inv))
 }
 
 type cliState struct {
@@ -43,6 +45,10 @@ func cliInvOf(v tla.Value) cliInv {
 	inv.Exts = tla.StrsOfSet(r["exts"])
 	inv.MTimeout = tla.B(r["mtimeout"])
 	inv.Watch = tla.B(r["watch"])
+	inv.Desc, inv.Sp, inv.Usage = tla.B(r["desc"]), tla.S(r["sp"]), tla.S(r["usage"])
+	for _, w := range tla.Q(r["argv"]) {
+		inv.Argv = append(inv.Argv, tla.S(w))
+	}
 	return inv
 }
 
@@ -54,7 +60,12 @@ var cliDocs = map[string]string{
 	"dot":       "- .\n  - a\n    - b\n  - c\n", // the target directory itself as the root (f.x is left out: strict mode would need its kind)
 }
 
+// argv: the command line of an invocation. The words come from the specification (Cli.tla: Argv = Words(Lexed(inv)),
+// the grammar with its aliases and spellings); the construction below is only used for invocations built by hand.
 func (inv cliInv) argv() []string {
+	if inv.Argv != nil || inv.Sub == "none" {
+		return inv.Argv
+	}
 	a := []string{inv.Sub}
 	if inv.Unknown {
 		a = append(a, "--nosuchflag")
